@@ -91,6 +91,27 @@ def gen_agg(r, k, tier):
             return c
 
 
+def gen_agg_many(r, k, tier):
+    """many modes with mutually different Huang-Rhys factors (hence many distinct shift differences in one aggregate: every mode
+    contributes 0, +d and -d to the look-up table of shift operators), few levels per mode so that the state space stays small"""
+    while True:
+        N = r.choice([2, 2, 3])
+        total = r.randint(8, 14)
+        hrs = r.sample([i / 16.0 for i in range(1, 40)], total)
+        mols = [{"E": r.randint(10, 40), "dip": [r.randint(-3, 3) for _ in range(3)], "modes": []} for _ in range(N)]
+        rich = set(r.sample(range(total), r.choice([0, 1, 2])))
+        for m in range(total):
+            nmax = [r.randint(1, 2), r.randint(1, 2)] if m in rich else [1, 1]
+            mols[m % N]["modes"].append({"omega": r.randint(1, 5), "nmax": nmax, "hr": hrs[m]})
+        J = [[0] * N for _ in range(N)]
+        for a in range(N):
+            for b in range(a + 1, N):
+                J[a][b] = J[b][a] = r.randint(-6, 6)
+        c = {"kind": "agg", "mols": mols, "J": J, "mult": r.choice([1, 1, 2])}
+        if 2 <= ntot_expected(c) <= (36 if tier == "quick" else 60):
+            return c
+
+
 def el_signatures(N, mult):
     out = []
     for b in range(mult + 1):
@@ -444,7 +465,8 @@ def rebuild_monitor(chk, cases, tier):
 def main():
     chk = cm.Check(PID, args.tier)
     chk.rule = ("real Aggregate.build runs: 1-3 two-level molecules, 0-2 modes each, 1-3 levels per mode and electronic state, integer "
-                "frequencies/energies/couplings/dipoles, dyadic Huang-Rhys factors in [0,2], mult 1/2, 2 <= Ntot <= 36 (60 thorough); raw "
+                "frequencies/energies/couplings/dipoles, dyadic Huang-Rhys factors in [0,2], mult 1/2, 2 <= Ntot <= 36 (60 thorough); plus "
+                "aggregates with 8-14 modes of mutually different Huang-Rhys factors and one or two levels each (17-29 distinct shifts); raw "
                 "vsignatures for 0-4 modes; FC law on a grid of Huang-Rhys factors; non-trivial: >= 2 molecules, a mode with S > 0")
     chk.assumptions = ["the Franck-Condon tables (operator_factory.shift_operator: numpy.linalg.eig + inv + exp of a 100 x 100 matrix, cut to "
                        "20 x 20) are an ORACLE: Poisson law, closed-form overlaps, orthogonality up to truncation, FC(0) = 1 and FC(-d) = FC(d)^T "
@@ -471,6 +493,7 @@ def main():
         quick = args.tier == "quick"
         cases = list(CORPUS)
         cases += [gen_agg(r, k, args.tier) for k in range(36 if quick else 300)]
+        cases += [gen_agg_many(r, k, args.tier) for k in range(6 if quick else 40)]
         cases += [{"kind": "nd", "shape": [r.choice([1, 2, 2, 3, 4, 0 if r.random() < 0.05 else 2]) for _ in range(r.randint(0, 4))]}
                   for _ in range(30 if quick else 200)]
         run(chk, cases)
